@@ -20,7 +20,10 @@ const Grp GROUPS[] = {
 #if USE_CUSTOM_REGISTERS
     // build configuration "user" (sim/userconfig/scpi_user_config.h)
     {USER_REG_VOLT, USER_REG_VOLTE, USER_REG_VOLTC, USER_REG_VOLTP, USER_REG_VOLTN},   // summary -> QUESC bit 0
-    {USER_REG_AUX, USER_REG_AUXE, USER_REG_AUXC, -1, -1},                              // summary -> OPERC bit 10
+    {USER_REG_AUX, USER_REG_AUXE, USER_REG_AUXC, -1, -1},                              // summary -> CHANC bit 3
+    {USER_REG_INST, USER_REG_INSTE, USER_REG_INSTC, -1, -1},                           // summary -> QUESC bit 13
+    {USER_REG_ISUM, USER_REG_ISUME, USER_REG_ISUMC, -1, -1},                           // summary -> INSTC bit 1
+    {USER_REG_CHAN, USER_REG_CHANE, USER_REG_CHANC, -1, -1},                           // summary -> ISUMC bit 2
 #endif
 };
 int all_event_mask() {
@@ -368,7 +371,18 @@ void execute_status(const Plan &plan, Verdict &v, bool c11, bool c12) {
             in_srq_push = false;
         }
     };
+    // firmware that re-reports a latched fault from its own backlog whenever it is told (error callback with 0) that the
+    // SCPI queue ran empty
+    long refill_left = std::max(0L, std::min(3L, plan.k("errcb_refill", 0)));
     w.err_observer = [&](World &ww, int code) {
+        if (code == 0 && refill_left > 0 && !v.violated) {
+            refill_left--;
+            COUNT("fault_error_pushed_inside_error_callback_on_empty");
+            std::string keep = run.last_op;
+            run.fw_action(K_PUSH, 0, -(int) (310 + refill_left), "errcb");
+            run.last_op = keep + " (+push inside the error callback)";
+            return;
+        }
         if (!c12 || v.violated || code == 0) return;
         // -350 announced by the library itself on overflow: whether that counts as a "queued error" is open, not asserted
         if (code == -350) return;
@@ -495,6 +509,7 @@ void generate_status(Rng &r, const GenOpts &g, Plan &p) {
     if (r.chance(1, 8)) p.knob["control_err"] = 1;
     if (r.chance(1, 6)) p.knob["no_reset_cb"] = 1;
     if (r.chance(1, 16)) p.knob["no_interface"] = 1;
+    if (r.chance(1, 8)) p.knob["errcb_refill"] = r.range(1, 3);
     if (r.chance(1, 6)) {
         p.knob["srq_push_at"] = r.range(1, 3);
         p.knob["srq_push_code"] = r.chance(1, 2) ? 310 : gen_code(r);
@@ -507,6 +522,17 @@ void generate_status(Rng &r, const GenOpts &g, Plan &p) {
         p.ops.push_back(Op("fw", {K_REGSET, USER_REG_VOLTP, r.chance(2, 3) ? 0xFFFF : gen_value(r), 0}));
         p.ops.push_back(Op("fw", {K_REGSET, USER_REG_VOLTN, r.chance(2, 3) ? 0 : gen_value(r), 0}));
         if (r.chance(1, 2)) p.ops.push_back(Op("fw", {K_REGSET, USER_REG_VOLTE, r.chance(1, 2) ? 0xFFFF : gen_value(r), 0}));
+        if (r.chance(1, 2)) {
+            // the whole fan-out enabled, so that one bit at the bottom travels up to the status byte
+            p.ops.push_back(Op("fw", {K_REGSET, USER_REG_AUXE, 0xFFFF, 0}));
+            p.ops.push_back(Op("fw", {K_REGSET, USER_REG_CHANE, 0xFFFF, 0}));
+            p.ops.push_back(Op("fw", {K_REGSET, USER_REG_ISUME, 0xFFFF, 0}));
+            p.ops.push_back(Op("fw", {K_REGSET, USER_REG_INSTE, 0xFFFF, 0}));
+            p.ops.push_back(Op("fw", {K_REGSET, SCPI_REG_QUESE, 0xFFFF, 0}));
+            if (r.chance(1, 2)) p.ops.push_back(Op("fw", {K_REGSET, SCPI_REG_SRE, 0x08, 0}));
+            static const int bottom[] = {USER_REG_AUXC, USER_REG_AUX, USER_REG_CHANC, USER_REG_ISUMC, USER_REG_ISUM};
+            p.ops.push_back(Op("fw", {r.chance(1, 2) ? K_REGSET : K_SETBITS, bottom[r.below(5)], gen_value(r) | 1, 0}));
+        }
         if (fw_rate == 0) fw_rate = 2;
     }
 #endif
